@@ -397,3 +397,5 @@ case("c17-truncate-blindly", "break", ["C17"], [(CSVF, "            if self.line
 _UP = TOOLS + "ucd_parsers.rs"
 case("c15-pairing-range-starts-at-last", "break", ["C15"], [(_UP, "                    r.end = udata.codepoint;\n", "                    r.end = udata.codepoint;\n                    r.start = udata.codepoint;\n")], "a First/Last pair yields only its last code point (never executed differently by the tests' inputs? — the pinned tables do change: L5 fires too)", expect_key=["first-last-pairing", "L5"])
 case("c15-pairing-accepts-plain-inside", "break", ["C15"], [(_UP, "                    if !udata.is_range_end() {\n                        return err!(", "                    if !udata.is_range_end() && udata.is_range_start() {\n                        return err!(")], "a plain line between First and Last is swallowed into the range instead of being an error", expect_key=["first-last-pairing"])
+case("c15-revert-d8", "break", ["C15"], [(TOOLS + "generators/bidi_class.rs", "                                add_range(r, bidi, &mut out);\n                                // Start a new range\n                                range = Some(*cp);", "                                out.push((Codepoints::Range(*r), bidi.clone()));\n                                out.push((Codepoints::Range(*cp), bidi.clone()));\n                                range = None;")], "reverts the D8 repair: after a non-adjacent First/Last range no run is pending, the next entry of another class is listed twice", expect_key=["bidi-run-semantics|step"])
+case("c15-revert-d7", "break", ["C15"], [(TOOLS + "generators/ucd_generator.rs", "        if self.range.start.value() <= last.value() {", "        if false {")], "reverts the D7 repair: the code points after the last entry are never emitted", expect_key=["gap-semantics|finish"])
